@@ -131,7 +131,10 @@ extern size_t mpt_stream_write(MPT_STRUCT(stream) *stream, size_t count, const v
 				data = ((char *) data) + take;
 				curr -= take;
 			}
-			mpt_stream_flush(stream);
+			/* save finished lines, keep partial data buffered */
+			if (stream->_wd._state.done) {
+				mpt_stream_flush(stream);
+			}
 			
 			/* add data to queue */
 			mpt_qpush(&stream->_wd.data, curr, data);
